@@ -18,7 +18,7 @@ var zzStatuses = []int{200, 201, 204, 304, 404, 500, 599, 101, 100}
 
 type zzProg struct {
 	status  int
-	mode    int // 0 none, 1 SetBody, 2 AppendBody x2, 3 stream len, 4 stream -1, 5 LimitedReader, 6 chunked writer, 7 AbortWithMsg, 8 NotFound
+	mode    int // 0 none, 1 SetBody, 2 AppendBody x2, 3 stream len, 4 stream -1, 5 LimitedReader, 6 chunked writer, 7 AbortWithMsg, 8 NotFound, 9 stream -2
 	body    []byte
 	first   bool // set status before (true) or after (false) the body call
 	close   bool
@@ -54,6 +54,8 @@ func zzApply(ctx *app.RequestContext, p *zzProg) {
 		ctx.Response.SetBodyStream(bytes.NewReader(b), -1)
 	case 5:
 		ctx.Response.SetBodyStream(io.LimitReader(bytes.NewReader(b), int64(len(b))), -1)
+	case 9:
+		ctx.Response.SetBodyStream(bytes.NewReader(b), -2) // "identity": length unknown as well
 	case 6:
 		w := resp.NewChunkedBodyWriter(&ctx.Response, ctx.GetWriter())
 		ctx.Response.HijackWriter(w)
@@ -71,7 +73,7 @@ func zzApply(ctx *app.RequestContext, p *zzProg) {
 		ctx.NotFound()
 		ctx.Response.Header.SetNoDefaultDate(true)
 	}
-	if !p.first && p.mode < 7 {
+	if !p.first && (p.mode < 7 || p.mode == 9) {
 		ctx.SetStatusCode(p.status)
 	}
 	if p.close {
@@ -83,7 +85,7 @@ func zzApply(ctx *app.RequestContext, p *zzProg) {
 func zzChooseProg(i int) *zzProg {
 	p := &zzProg{}
 	p.status = zzStatuses[zz.Choose("status", zz.Param("NSTATUS", 7))]
-	p.mode = zz.Choose("mode", 9)
+	p.mode = zz.Choose("mode", 10)
 	l := zz.Range("len", 0, zz.Param("L", 3))
 	p.body = zz.Bytes("body", l)
 	p.hv = zz.Byte("headerValueByte")
@@ -93,7 +95,7 @@ func zzChooseProg(i int) *zzProg {
 		p.flushes = zz.Choose("flush", 2)
 		p.cut = zz.Range("cut", 0, l)
 	}
-	if p.mode >= 7 {
+	if p.mode == 7 || p.mode == 8 {
 		p.first = false // these helpers reset the response and set the status themselves
 	}
 	if p.mode == 8 {
@@ -276,5 +278,56 @@ func ZZ_C04_SEQ() {
 		zz.Assert("stream-body", r2.chunked && bytes.Equal(r2.body, b2))
 	case 5:
 		zz.Assert("sized-body", r2.clen == 2 && bytes.Equal(r2.body, b2))
+	}
+}
+
+// ZZ_C04_PIPE: two pipelined requests that arrive in one read, both answered with a body large
+// enough to be handed to the connection writer by reference (>= 4 KiB): each response carries
+// its own bytes (the buffer of the first response must be on the wire, or copied, before the
+// recycled context overwrites it with the second).
+func ZZ_C04_PIPE() {
+	n := []int{4096, 5000}[zz.Choose("size", 2)]
+	sym := zz.Bytes("bodybytes", 4)
+	mk := func(fill byte, a, b byte) []byte {
+		body := make([]byte, n)
+		for i := range body {
+			body[i] = fill
+		}
+		body[0], body[n-1] = a, b
+		return body
+	}
+	b1 := mk('A', sym[0], sym[1])
+	b2 := mk('B', sym[2], sym[3])
+	mode := zz.Choose("mode", 2) // 0 SetBody, 1 Write (AppendBody)
+	nc := zz.NewNetConn([]byte("GET /one HTTP/1.1\r\nHost: h\r\n\r\nGET /two HTTP/1.1\r\nHost: h\r\n\r\n"))
+	k := 0
+	core := zzNewCore(func(c context.Context, ctx *app.RequestContext) {
+		k++
+		b := b1
+		if k == 2 {
+			b = b2
+		}
+		if mode == 0 {
+			ctx.Response.SetBody(b)
+		} else {
+			ctx.Write(b) //nolint:errcheck
+		}
+	})
+	s := zzNewServer(core)
+	s.IdleTimeout = 1
+	_ = s.Serve(context.Background(), standard.ZZNewConn(nc))
+	out := nc.Out
+	zz.Cover("reached-assert", true)
+	r1, n1, ok1 := zzReadResponse(out, false)
+	zz.Assert("first-response-well-formed", ok1)
+	if !ok1 {
+		return
+	}
+	zz.Assert("first-response-carries-its-own-body", bytes.Equal(r1.body, b1))
+	r2, n2, ok2 := zzReadResponse(out[n1:], false)
+	zz.Assert("second-response-well-formed", ok2)
+	if ok2 {
+		zz.Assert("second-response-carries-its-own-body", bytes.Equal(r2.body, b2))
+		zz.Assert("nothing-else-on-the-wire", n1+n2 == len(out))
 	}
 }
